@@ -310,6 +310,9 @@ def run(prop, tier, seed):
             "text-maxlen": "lengths maxlen-2..maxlen+2 with {0,'z'} at the four bytes around the cut, twins differing "
                            "only in the last kept / first cut byte, all-pad texts, maxlen+70000; every text (of every "
                            "stratum) ends at a PROT_NONE page after min(len,maxlen) bytes",
+            "text-64k": "texts of 65535, 65536, 65537, 65541, 131072, 131077, 200000 bytes together with the empty, the "
+                        "1-, 5- and maxlen-byte text of the same letter, all pairs (length >= 2^16 does not fit the "
+                        "encoder's 16-bit size type)",
             "text-pads / text-rand": "random texts over {00,'a'..'d'} with embedded/trailing pads; random zero-free "
                                      "texts (all byte values) incl. lengths around 256 and up to 4300, extensions "
                                      "and padded twins",
